@@ -36,6 +36,18 @@ theorem bin1d_ok_or_unmodelled (guess : Nat → Nat → Int) {arr : List α} (va
   exact bin1dLoop_ok_or_unmodelled guess val arr hinc _ 0 (arr.length - 1) rfl (by omega) (by omega)
     (by omega) (by omega)
 
+/-- **Sentence (4), one axis, for EVERY guess function** (the code after the fix of
+notes/C06_defect_3): for strictly increasing non-empty `arr`, any value and any guess whatsoever the
+search returns (number of edges not greater than the value) − 1.  No hypothesis about the float
+interpolation is left. -/
+theorem bin1d_correct (guess : Nat → Nat → Int) {arr : List α} (val : α)
+    (hinc : StrictInc arr) (hne : arr ≠ []) :
+    bin1d guess val arr = .ok ((countLE arr val : Int) - 1) := by
+  have hl : arr.length ≠ 0 := by simpa using hne
+  have hk := countLE_le_length arr val
+  simp only [bin1d, hl, if_false]
+  exact bin1dLoop_correct guess val arr hinc _ 0 (arr.length - 1) rfl (by omega) (by omega) (by omega) (by omega)
+
 /-- the executable predicate "in range at every visited state" implies correctness -/
 theorem bin1d_of_visitedInRange (guess : Nat → Nat → Int) {arr : List α} (val : α)
     (hinc : StrictInc arr) (hne : arr ≠ []) (hv : visitedInRange guess val arr = true) :
@@ -56,7 +68,9 @@ theorem bin1d_of_guessOKAtB (guess : Nat → Nat → Int) {arr : List α} (val :
     bin1d guess val arr = .ok ((countLE arr val : Int) - 1) :=
   bin1d_spec guess val ((guessOKAtB_iff arr val guess).1 hb) hinc hne
 
-/-- **The real expression.**  `floatGuess arrF valF` is
+/-- (AUX — an instance of the two theorems above for one particular guess function; `arrF`, `valF`
+are not related to `arr`, `val` by any hypothesis, so this says nothing about floats.)
+`floatGuess arrF valF` is
 `ind_min + int((ind_max-ind_min) * (float(val-arr[ind_min]) / (arr[ind_max]-arr[ind_min])))` in IEEE-754
 double arithmetic (Lean's `Float`; the driver evaluates it and the harness compares it with the
 guesses of the real code).  `arr`, `val` are the same numbers in any linearly ordered type (the
@@ -260,25 +274,13 @@ end Elem2
 /-! ## non-vacuity: concrete instances (tests, not theorems) -/
 section Examples
 
-/-- a guess that is never in range: the model says `unmodelled`, not a wrong bin -/
-example : bin1d (fun _ _ => -5) 45 exArr = .error .unmodelled := by
-  unfold bin1d exArr
-  rw [bin1dLoop]
-  simp
+/-- a guess that is never in range: since the fix of notes/C06_defect_3 the search treats it as a
+guess on the nearest bound and still finds the bin -/
+example : bin1d (fun _ _ => -5) 45 exArr = .ok 2 := by
+  rw [bin1d_correct (fun _ _ => -5) (45 : Int) exArr_inc (by decide)]; rfl
 
-example : visitedInRange (fun _ _ => -5) (45 : Int) exArr = false := by
-  unfold visitedInRange bin1d exArr
-  rw [bin1dLoop]
-  simp
-
-/-- … but a value that needs no guess is found whatever the guess function is -/
-example : bin1d (fun _ _ => -5) 100 exArr = .ok 5 := by
-  rcases bin1d_ok_or_unmodelled (fun _ _ => -5) (100 : Int) exArr_inc (by decide) with h | h
-  · rw [h]; rfl
-  · exfalso
-    unfold bin1d exArr at h
-    rw [bin1dLoop] at h
-    simp at h
+example : visitedInRange (fun _ _ => -5) (45 : Int) exArr = true := by
+  simp [visitedInRange, bin1d_correct (fun _ _ => -5) (45 : Int) exArr_inc (by decide)]
 
 example : guessOKAtB exArr (45 : Int) midGuess = true := by decide
 example : guessOKAtB exArr (45 : Int) (fun _ _ => -5) = false := by decide
